@@ -160,6 +160,7 @@ def run(ctx):
     # once the lock is released the postponed removal completes: the log worker keeps going while a deferred commit is queued
     shared.more_work_signal(ctx, '3w')
     shared.deferral_is_surgical(ctx, '3')
+    shared.no_mutual_deferral(ctx, '3z')
     dc = ctx.body('db::DbInner::defer_commit')
     if dc:
         sites = lib.sites_reaching(dc, [shared.COPY_IDX, shared.COPY_BT, shared.CLEAN_IDX, shared.CLEAN_BT])
